@@ -94,9 +94,75 @@ def run(prop=None, ids=None, workers=8, repo="/repo"):
         neg = run_equivalent(workers=workers, repo=repo, props=[prop])
         errors += ["behaviour-preserving edit %s: %s %s" % (r["id"], r["status"], r.get("keys") or r.get("why", "")) for r in neg
                    if r["status"] not in ("silent", "skipped")]
+    meta = []
+    pneg = []
+    if prop is not None and ids is None:
+        # systematic behaviour-preserving rewrites of the whole extracted program (sa/metamorph.py)
+        from . import metamorph as M
+        for which in [[t] for t in M.T] + [list(M.T)]:
+            try:
+                bad, counts = M.run(which, repo=repo, quiet=True, props=[prop])
+            except Exception as e:  # noqa
+                bad, counts = ["%s: %s" % (type(e).__name__, e)], {}
+            meta.append(dict(transform="+".join(which), sites=counts, alarms=bad[:5]))
+            errors += ["metamorphic transform %s: FALSE-ALARM %s" % ("+".join(which), b) for b in bad[:5]]
+        # behaviour-preserving refactoring patches written by independent sub-agents
+        pneg = run_patches(props=[prop], workers=workers, repo=repo)
+        errors += ["refactoring patch %s: %s %s" % (r["id"], r["status"], r.get("keys") or r.get("why", "")) for r in pneg
+                   if r["status"] not in ("silent", "skipped")]
     return dict(mutants=len(res), caught=sum(r["status"] == "caught" for r in res),
                 skipped=[r["id"] for r in res if r["status"] == "skipped"], errors=errors, results=res,
-                negative_controls=len(neg), negative_controls_silent=sum(r["status"] == "silent" for r in neg))
+                negative_controls=len(neg), negative_controls_silent=sum(r["status"] == "silent" for r in neg),
+                metamorphic=meta, refactoring_patches=len(pneg), refactoring_patches_silent=sum(r["status"] == "silent" for r in pneg))
+
+
+def accepted_patches():
+    d = os.path.join(VERIF, "mutants", "refactors")
+    lst = os.path.join(d, "ACCEPTED.txt")
+    if not os.path.exists(lst):
+        return []
+    return [os.path.join(d, l.strip()) for l in open(lst) if l.strip() and not l.startswith("#")]
+
+
+def run_patches(props=None, workers=8, repo="/repo", patches=None):
+    """negative controls: the checks must be silent on /repo + each accepted behaviour-preserving patch"""
+    import subprocess
+    res = []
+    base = os.path.join(tempfile.gettempdir(), "nnverif-neg-%d" % os.getuid())
+
+    def one(patch, slot):
+        name = os.path.basename(patch)[:-5]
+        tmp = os.path.join(base, name)       # deterministic path: the fact cache (keyed by content AND path) is reused
+        shutil.rmtree(tmp, ignore_errors=True)
+        try:
+            dst = os.path.join(tmp, "repo")
+            make_copy(repo, dst)
+            r = subprocess.run(["patch", "-p1", "-s", "-d", dst, "-i", patch], capture_output=True, text=True)
+            if r.returncode != 0:
+                return dict(id=name, status="skipped", why="patch does not apply to the current tree")
+            try:
+                fx = F.get_facts(dst, "dev", quiet=True, slot=slot)
+            except F.NoVerdict as e:
+                return dict(id=name, status="skipped", why="does not compile on the current tree: " + str(e)[-200:])
+            known = {k["key"] for k in core.load_known().get("known", [])}
+            alarms = []
+            for prop in (props or rules.PROPS):
+                ctx = core.Ctx(prop, fx)
+                rules.load(prop).run(ctx)
+                ctx.finish_floors()
+                alarms += [o["key"] for o in ctx.obligations if o["status"] != "ok" and o["key"] not in known]
+            return dict(id=name, status="silent" if not alarms else "FALSE-ALARM", keys=alarms[:5])
+        finally:
+            shutil.rmtree(tmp, ignore_errors=True)
+    todo = patches if patches is not None else accepted_patches()
+    with cf.ThreadPoolExecutor(max_workers=workers) as ex:
+        futs = [ex.submit(one, p_, "-mut%d" % (i % workers)) for i, p_ in enumerate(todo)]
+        for f in futs:
+            try:
+                res.append(f.result())
+            except Exception as e:  # noqa
+                res.append(dict(id="?", status="error", why="%s: %s" % (type(e).__name__, e)))
+    return res
 
 
 def run_equivalent(workers=8, repo="/repo", ids=None, props=None):
